@@ -161,6 +161,24 @@ func checkInstalledHMACConfigured(c *Ctx, rule string) {
 				av.addAll(declared)
 				par := reach([]*ssa.BasicBlock{start}, av, nil)
 				_, reached := par[mu.Block()]
+				// the installed value may be a merge of "no authenticator" (nil, from a helper's early return) and the
+				// constructed one: what matters is where the constructed one comes from
+				if phi, isPhi := mu.Value.(*ssa.Phi); isPhi && reached && len(phi.Edges) == len(phi.Block().Preds) {
+					reached = false
+					var nonNil ssa.Value
+					for i, e := range phi.Edges {
+						if isNilConst(e) {
+							continue
+						}
+						nonNil = e
+						if _, r := par[phi.Block().Preds[i]]; r {
+							reached = true
+						}
+					}
+					if nonNil != nil {
+						mu.Value = nonNil
+					}
+				}
 				if reached && os.Getenv("HK_DEBUG") != "" {
 					fmt.Println("DEBUG declared", len(declared), "start", start.Index, "path", p.blockPath(par, mu.Block()))
 				}
